@@ -31,7 +31,9 @@ for p in $PROPS; do
   if [ $rc -eq 1 ]; then
     keys=$(grep -c "^VIOLATION" "$OUT/$p.log")
     first=$(grep -m1 "^  key:" "$OUT/$p.log" | sed 's/^  key: //')
-    line="$line $p=VIOLATION($keys;$first)"
+    # earliest run index at which any violation key was first seen (margin of detection within the budget)
+    frun=$(grep -h "first seen in run" "$OUT"/replays/*.replay 2>/dev/null | sed 's/.*first seen in run \([0-9]*\).*/\1/' | sort -n | head -1)
+    line="$line $p=VIOLATION($keys;$first;first_run=${frun:-?}/$n)"
   elif [ $rc -eq 0 ]; then line="$line $p=ok"
   else line="$line $p=HARNESS-ERROR($rc)"; fi
 done
